@@ -184,8 +184,9 @@ class Inotify:
         self._wd_for_path: dict[bytes, int] = {}
         self._path_for_wd: dict[int, bytes] = {}
         self._moved_from_events: dict[int, InotifyEvent] = {}
-        # Watch descriptors of watched directories whose IN_MOVED_FROM has not been matched yet.
-        self._moved_from_wds: dict[int, int] = {}
+        # Watch descriptors of the watched directories (with everything below them) whose
+        # IN_MOVED_FROM has not been matched yet.
+        self._moved_from_wds: dict[int, list[int]] = {}
 
         self._path = path
         # Default to all events
@@ -279,18 +280,25 @@ class Inotify:
         :param path:
             Path of the directory that left the tree.
         :param cookie:
-            Cookie of the unmatched IN_MOVED_FROM event, if that is how the directory left: the
-            directory is then looked up by its watch descriptor, because one of its parents may
-            have been renamed since, and nothing is done if the move has been matched meanwhile.
+            Cookie of the unmatched IN_MOVED_FROM event, if that is how the directory left: what
+            is removed then are the watch descriptors the directory and its sub-directories had
+            when it left - one of its parents may have been renamed since, and its name may have
+            been given to another directory - and nothing is done if the move has been matched
+            meanwhile.
         """
         with self._lock:
             if self._closed:
                 return
             if cookie is not None:
-                wd = self._moved_from_wds.pop(cookie, None)
-                if wd is None or wd not in self._path_for_wd:
-                    return
-                path = self._path_for_wd[wd]
+                for wd in self._moved_from_wds.pop(cookie, ()):
+                    _path = self._path_for_wd.get(wd)
+                    if _path is None:
+                        continue
+                    # The name may belong to another directory by now.
+                    if self._wd_for_path.get(_path) == wd:
+                        del self._wd_for_path[_path]
+                    inotify_rm_watch(self._inotify_fd, wd)
+                return
             prefix = path + os.path.sep.encode()
             for _path in [p for p in self._wd_for_path if p == path or p.startswith(prefix)]:
                 wd = self._wd_for_path.pop(_path)
@@ -389,7 +397,12 @@ class Inotify:
                 if inotify_event.is_moved_from:
                     self.remember_move_from_event(inotify_event)
                     if inotify_event.src_path in self._wd_for_path:
-                        self._moved_from_wds[cookie] = self._wd_for_path[inotify_event.src_path]
+                        prefix = inotify_event.src_path + os.path.sep.encode()
+                        self._moved_from_wds[cookie] = [
+                            _wd
+                            for _path, _wd in self._wd_for_path.items()
+                            if _path == inotify_event.src_path or _path.startswith(prefix)
+                        ]
                 elif inotify_event.is_moved_to:
                     move_src_path = self.source_for_move(inotify_event)
                     self._moved_from_wds.pop(cookie, None)
@@ -487,8 +500,9 @@ class Inotify:
             del self._wd_for_path[old_path]
         # If it came back before the removal of its watches fell due (see remove_watches_below()),
         # it keeps them.
-        for cookie in [c for c, moved_wd in self._moved_from_wds.items() if moved_wd == wd]:
-            del self._moved_from_wds[cookie]
+        for moved_wds in self._moved_from_wds.values():
+            if wd in moved_wds:
+                moved_wds.remove(wd)
         self._wd_for_path[path] = wd
         self._path_for_wd[wd] = path
         return wd
